@@ -136,7 +136,8 @@ def classify(case, ctx=None, n1=4000):
         # 2./3. unbiased value and gradient at a generic q
         flat = np.asarray(case["params"][: (2 * d if mf else d + d * d)], dtype=np.float32).astype(np.float64)
         if case["family"] == "full_cov":
-            L = np.tril(flat[d:].reshape(d, d)) + np.diag([0.6] * d)
+            M = flat[d:].reshape(d, d)  # a Cholesky factor has a positive diagonal (a zero entry makes q singular: not a density)
+            L = np.tril(M, -1) + np.diag(0.4 + np.abs(np.diag(M)))
             flat = np.concatenate([flat[:d], L.ravel()])
         flat = flat.astype(np.float32).astype(np.float64)
         mu, Sig = q_of(case, flat)
@@ -197,10 +198,10 @@ def classify(case, ctx=None, n1=4000):
             ph = np.asarray(va.param_history)
             if ph.shape != (nit, len(flat)):
                 fails.append((f"history_shape:{C}", f"param_history shape {ph.shape} != ({nit}, {len(flat)})"))
-            elif not np.array_equal(np.asarray(va.final_params), ph[-1]):
+            elif not np.array_equal(np.asarray(va.final_params), ph[-1], equal_nan=True):  # a diverged run ends in nan for both
                 fails.append((f"final_not_last_iterate:{C}", "final_params != param_history[-1]"))
             elif not np.all(np.isfinite(ph)):
-                fails.append((f"history_not_finite:{C}", ""))
+                info["diverged"] = True  # stochastic ascent may diverge (score-function steps on exp(log sd)); nothing is claimed about that
             else:
                 b1 = jax.jit(jax.vmap(lambda k: seed(lambda p: elbo_vi(target, fam, p, cons, (), lr, 1))(k, pj).param_history[0]))
 
@@ -273,7 +274,7 @@ def classify_exact_recursion(case):
     elif not np.allclose(ph, want, rtol=2e-4, atol=2e-4):
         i = int(np.argmax(np.max(np.abs(ph - want), axis=1)))
         fails.append((f"history_not_gradient_ascent:{C}", f"iterate {i}: {ph[i].tolist()} != params + lr*grad recursion {want[i].tolist()} (lr={lr}, start {th0.tolist()}, first iterate {ph[0].tolist()} vs {want[0].tolist()})"))
-    elif not np.array_equal(np.asarray(va.final_params), np.asarray(va.param_history)[-1]):
+    elif not np.array_equal(np.asarray(va.final_params), np.asarray(va.param_history)[-1], equal_nan=True):
         fails.append((f"final_not_last_iterate:{C}", ""))
     if va.n_iterations.value != nit:
         fails.append((f"n_iterations:{C}", f"{va.n_iterations.value} != {nit}"))
@@ -302,7 +303,7 @@ def one_case(ctx, case):
         case = {**case, "estimator": case.get("pair", "reinforce+reinforce"), "d": 2}
     if case["kind"] == "conjugate":
         fails, info = classify(case, ctx, P["n1"])
-        cls = [f"C17.family_{case['family']}", f"C17.estimator_{case['estimator']}", f"C17.d{case['d']}"] + (["C17.posterior_tightness_checked"] if info.get("posterior_checked") else [])
+        cls = [f"C17.family_{case['family']}", f"C17.estimator_{case['estimator']}", f"C17.d{case['d']}"] + (["C17.posterior_tightness_checked"] if info.get("posterior_checked") else []) + (["C17.stochastic_run_diverged_not_compared"] if info.get("diverged") else [])
         nt = True
     else:
         fails, info = classify_exact_recursion(case)
